@@ -1,26 +1,41 @@
+import IoraModel.Gen.TeardownSkel
 /-!
 # Model of the Transport teardown handshake (C05, logic core)
 
 Mirrors `include/iora/network/transport_impl.hpp`: `Impl::ParkGuard` / `Impl::FlushGuard` (paired counter inc/dec + notify of
 `teardownCv`), `Impl::setTeardownFence`, `Impl::teardownWaitOut`, `Impl::performTeardown` (NORMAL and ALREADY-STOPPED paths),
-the I/O-thread self-destruct branch of `Transport::~Transport`, `Transport::stop`, and the parts of `receiveSync`,
-`connectSync` and the `setReadMode` flush loop that matter for teardown: entry fence, park, wake, the uncounted/counted
-windows.  Bytes are not modelled here (C03), nor the connect bookkeeping (C04).
+the three branches of `Transport::~Transport` (flusher self-destruct — FC05a —, I/O-thread self-destruct, ordinary thread),
+`Transport::stop`, the I/O-thread guards of the synchronous operations, and the parts of `receiveSync`, `connectSync` and the
+`setReadMode` flush loop that matter for teardown: entry fence, park, wake, the uncounted/counted windows.  Bytes are not
+modelled here (C03), nor the connect bookkeeping (C04).
 
 One step = one `syncMutex` critical section (or one callback / engine call made outside it).  A timed wait may time out at
-any time (`wake i true`).  "Touching `Impl` after it was destroyed" is the explicit error outcome `uaf`.
+any time (`wake i true`).  "Touching `Impl` after it was destroyed" is the explicit error outcome `uaf`; "the I/O thread
+entered a blocking synchronous operation of its own transport" is the explicit error outcome `ioSelfBlock`.
 
-Environment contract (`ok`, not built into `step`): the application does not BEGIN a new synchronous call once the
-destructor's wait has completed (a call that starts on a destroyed object is the application's own use-after-free), and
-`stop()` is not called concurrently with destruction (the engine's documented lifecycle contract: start/stop are not
-concurrent with each other).
+What the model TAKES from the regenerated source skeleton (`Gen/TeardownSkel.lean`, tools/tr_teardownskel.py): the argument of
+the `teardownWaitOut` call on every path and the polarity of the `if (notifyReceive)` test (`nrIo`/`nrStopped`/`nrNormal`), the
+counters named by the gate predicate (`gated`), whether the destructor's I/O-thread branch and the guards of the synchronous
+operations are taken on thread identity alone (`ioBranchIdentityOnly`, `guardIdentityOnly`).
+
+Environment contract (`ok`, not built into `step`):
+* the application does not BEGIN a new synchronous call once the destructor's wait has completed (a call that starts on a
+  destroyed object is the application's own use-after-free);
+* a thread inside `stop()` holds a reference (the shared-ownership contract stated in `~Transport`, transport_impl.hpp "a
+  concurrent stopper … holding its OWN shared_ptr"): the last reference is not dropped while a `stop()` is joining, and
+  `stop()` is not called once destruction has begun.
 -/
 namespace Iora.Teardown
+open Iora.Gen
 
 inductive Kind | recv (sid : Nat) | conn | flush
   deriving DecidableEq, Repr
 
 inductive Res | timeout | peerClosed | shuttingDown | completed | flushed (ok : Bool)
+  deriving DecidableEq, Repr
+
+/-- the four operations guarded against the I/O thread -/
+inductive SyncOp | connectSync | receiveSync | sendSync | setReadMode
   deriving DecidableEq, Repr
 
 /-- program counter of an application thread inside one synchronous call -/
@@ -32,6 +47,8 @@ inductive Pc
   | floop                     -- flusher between two critical sections, FlushGuard alive
   | fcb                       -- flusher inside the user data callback
   | fend (r : Bool)           -- flush loop left, FlushGuard destructor pending
+  | fdtor                     -- flusher inside its data callback, running (or having run) `~Transport` there: its FlushGuard has
+                              -- been released (not counted any more); its flush frame deletes `Impl` when the loop unwinds
   | done (r : Res)
   deriving DecidableEq, Repr
 
@@ -48,15 +65,21 @@ inductive Td
   | joining                   -- NORMAL path: inside `engine->stop()`, waiting for the I/O thread to terminate
   | waiting (awake : Bool)    -- inside `teardownWaitOut`, asleep on `teardownCv`
   | waited                    -- `teardownWaitOut` returned; `~Impl` not yet run
-  | ioWaiting (awake : Bool)  -- the I/O thread itself is inside `teardownWaitOut(true)` (sole owner released in a callback)
+  | ioWaiting (awake : Bool)  -- the I/O thread itself is inside `teardownWaitOut` (sole owner released in a callback)
   | ioReleased                -- self-destruct scheduled, engine detached; `Impl` is deleted by the I/O thread's epilogue
+  | flushOwned                -- flusher self-destruct: `~Transport` returned, `Impl` is owned by the flush frame below it
   | destroyed
+  deriving DecidableEq, Repr
+
+/-- which branch of `~Transport` / `performTeardown` ran (ghost) -/
+inductive Path | none | normal | stopped | io
   deriving DecidableEq, Repr
 
 inductive Ev
   | ret (i : Nat) (r : Res)
   | cbClose (sid : Nat)            -- a close callback ran on the I/O thread
-  | cbData (i : Nat)               -- the data callback ran on flusher `i`'s own thread
+  | cbData (i : Nat)               -- the data callback was invoked on flusher `i`'s own thread
+  | refused (op : SyncOp)          -- a synchronous operation called from a callback on the I/O thread threw `logic_error`
   | stopReturned
   | destroyed
   deriving DecidableEq, Repr
@@ -73,9 +96,12 @@ structure State where
   ioAlive : Bool := true                    -- the I/O thread has not terminated
   stopJoining : Bool := false               -- an application thread is inside `Transport::stop()` (joining)
   td : Td := .idle
+  dtorOn : Option Nat := none               -- `some i`: `~Transport` runs on flusher `i`, inside its data callback
   implAlive : Bool := true
   uaf : Bool := false                       -- a thread touched `Impl` after it was destroyed
-  recvNotified : Bool := false              -- ghost: a `teardownWaitOut(true)` entry section has notified the receive CVs
+  ioSelfBlock : Bool := false               -- the I/O thread entered a blocking synchronous operation of its own transport
+  recvNotified : Bool := false              -- ghost: a `teardownWaitOut` entry section has notified the receive CVs
+  path : Path := .none                      -- ghost: the teardown path taken
   log : List Ev := []
 
 inductive Step
@@ -86,22 +112,44 @@ inductive Step
   | flushStep (i : Nat) (more : Bool)  -- flusher advances (`more`: the buffer was non-empty)
   | ioCloseSess (sid : Nat)            -- the peer closed a live session (onClose on the I/O thread)
   | ioConnDone (i : Nat)               -- a connect handler completed waiter `i`
-  | ioDrain (sid : Option Nat)         -- after Shutdown: the I/O thread closes a session still open (`some`), or terminates (`none`)
+  | ioDrain (sid : Option Nat)         -- `_running` is false: the I/O thread closes a session still open (`some`), or terminates (`none`)
+  | ioSyncCall (op : SyncOp)           -- a callback on the I/O thread calls a synchronous operation of the transport
   | stopCall                           -- `Transport::stop()` from an application thread
   | stopJoin                           -- … its join returns
   | tdBegin                            -- `~Transport` on a non-I/O thread: `performTeardown` picks its path
   | tdStop                             -- NORMAL path: `engine->stop()` called
-  | tdJoined                           -- NORMAL path: the join returned; `teardownWaitOut(false)` entry section
+  | tdJoined                           -- NORMAL path: the join returned; `teardownWaitOut` entry section
   | tdWake                             -- `teardownCv` wake-up / predicate check
   | tdDestroy                          -- `~Impl`
-  | ioSelfDestruct                     -- `~Transport` on the I/O thread inside a callback: `teardownWaitOut(true)` entry section
+  | tdOrphan                           -- flusher self-destruct: `~Transport` returns, leaving `Impl` to the flush frame
+  | ioSelfDestruct                     -- `~Transport` on the I/O thread inside a callback: `teardownWaitOut` entry section
+  | flushSelfDestruct (i : Nat)        -- `~Transport` on flusher `i` inside its data callback: `releaseOwnFlushes` (FlushGuard destructor)
   deriving Repr
+
+/-! ## what the model takes from the regenerated skeleton -/
+
+/-- does a `teardownWaitOut(arg)` call notify the receive CVs? (the test is `if (notifyReceive)` or its negation, as written) -/
+def notifies (arg : Bool) : Bool := if TeardownSkel.notifyTestPositive then arg else !arg
+/-- the three call sites of `teardownWaitOut` -/
+def nrIo : Bool := notifies TeardownSkel.ioBranchNotifyArg
+def nrStopped : Bool := notifies TeardownSkel.stoppedNotifyArg
+def nrNormal : Bool := notifies TeardownSkel.normalNotifyArg
+/-- the wait predicate of `teardownWaitOut` names this counter -/
+def gated (c : String) : Bool := TeardownSkel.gateCounters.contains c
+/-- the I/O-thread branch of `~Transport` is taken on thread identity alone (no `isRunning()` conjunct) -/
+def ioBranchIdentityOnly : Bool := !TeardownSkel.ioBranchTestsRunning
+def opName : SyncOp → String
+  | .connectSync => "connectSync" | .receiveSync => "receiveSync" | .sendSync => "sendSync" | .setReadMode => "setReadMode"
+/-- the first statement of the operation throws `logic_error` on the I/O thread, on thread identity alone -/
+def guardIdentityOnly (op : SyncOp) : Bool :=
+  TeardownSkel.ioGuards.any fun g =>
+    g.1 == opName op && g.2.1 == "std::this_thread::get_id()==_impl->engine->getIoThreadId()" && g.2.2 == "throw:logic_error"
 
 /-! ## helpers -/
 
 def setT (l : List Thread) (i : Nat) (t : Thread) : List Thread := l.set i t
 
-/-- does the thread's next own step touch `Impl`? (it is inside a call) -/
+/-- the thread is inside a call and counted by the teardown gate: its next own step touches `Impl` -/
 def inside : Pc → Bool
   | .parked _ | .window | .relock | .floop | .fcb | .fend _ => true
   | _ => false
@@ -126,17 +174,22 @@ def notifyTd (td : Td) : Td :=
   | .ioWaiting _ => .ioWaiting true
   | x => x
 
-def gate (s : State) : Bool := s.activeReceives == 0 && s.activeConnects == 0 && s.activeFlushes == 0
+/-- mirrors transport_impl.hpp::Transport::Impl::teardownWaitOut — the wait predicate, over the counters the source names -/
+def gate (s : State) : Bool :=
+  (!gated "activeReceives" || s.activeReceives == 0) && (!gated "activeConnects" || s.activeConnects == 0) &&
+  (!gated "activeFlushes" || s.activeFlushes == 0)
 
-/-- every step of an application thread touches `Impl` -/
+/-- every step of a thread inside a member function touches `Impl` -/
 def touch (s : State) : State := if s.implAlive then s else { s with uaf := true }
 
-/-- mirrors transport_impl.hpp::Transport::Impl::setupEngineCallbacks — onClose step 6 for `sid` (closed := true; notify_all) -/
+/-- mirrors transport_impl.hpp::Transport::Impl::setupEngineCallbacks — onClose for `sid`: the user callback, then step 6
+(closed := true; notify_all); the handler runs on `Impl` -/
 def closeSess (s : State) (sid : Nat) : State :=
+  let s := touch s
   { s with live := s.live.filter (· != sid), closed := fun j => if j = sid then true else s.closed j,
            threads := wakeAll (isRecvOf sid) s.threads, log := s.log ++ [.cbClose sid] }
 
-/-- mirrors transport_impl.hpp::Transport::Impl::teardownWaitOut — the entry section (fence + notifies) -/
+/-- mirrors transport_impl.hpp::Transport::Impl::teardownWaitOut / setTeardownFence — the entry section (fence + notifies) -/
 def waitOutEntry (s : State) (notifyReceive : Bool) : State :=
   { s with shuttingDown := true, recvNotified := s.recvNotified || notifyReceive,
            threads := wakeAll (fun t => isConn t || (notifyReceive && isRecv t)) s.threads }
@@ -211,7 +264,9 @@ def doConnRelock (s : State) (i : Nat) : State :=
      | _ => s)
   | none => s
 
-/-- mirrors transport_impl.hpp::Transport::setReadMode — flush loop iteration, callback, FlushGuard destructor -/
+/-- mirrors transport_impl.hpp::Transport::setReadMode — flush loop iteration, callback, FlushGuard destructor; and, for a
+flusher that ran `~Transport` inside its callback (`fdtor`), the unwinding of the loop once the destructor has returned:
+the loop's section sees `shuttingDown`, the call returns false and `~FlushFrame` deletes `Impl` -/
 def doFlushStep (s : State) (i : Nat) (more : Bool) : State :=
   match s.threads[i]? with
   | some t =>
@@ -219,14 +274,34 @@ def doFlushStep (s : State) (i : Nat) (more : Bool) : State :=
      | .floop =>
        let s := touch s
        if s.shuttingDown then { s with threads := setT s.threads i { t with pc := .fend false } }
-       else if more then { s with threads := setT s.threads i { t with pc := .fcb } }
+       else if more then { s with threads := setT s.threads i { t with pc := .fcb }, log := s.log ++ [.cbData i] }
        else { s with threads := setT s.threads i { t with pc := .fend true } }
-     | .fcb => { s with threads := setT s.threads i { t with pc := .floop }, log := s.log ++ [.cbData i] }
+     | .fcb => { s with threads := setT s.threads i { t with pc := .floop } }
      | .fend r =>
        let s := touch s
        { s with threads := setT s.threads i { t with pc := .done (.flushed r) }, activeFlushes := s.activeFlushes - 1,
                 td := notifyTd s.td, log := s.log ++ [.ret i (.flushed r)] }
+     | .fdtor =>
+       (match s.td with
+        | .flushOwned =>
+          let s := touch s
+          { s with threads := setT s.threads i { t with pc := .done (.flushed false) }, td := .destroyed, implAlive := false,
+                   log := s.log ++ [.ret i (.flushed false), .destroyed] }
+        | _ => s)    -- the thread is still inside the destructor
      | _ => s)
+  | none => s
+
+/-- mirrors transport_impl.hpp::Transport::~Transport (flusher branch) / Impl::releaseOwnFlushes — the FlushGuard destructor of
+the calling thread's own flush runs now, under the lock -/
+def doFlushSelfDestruct (s : State) (i : Nat) : State :=
+  match s.threads[i]? with
+  | some t =>
+    (match t.pc, s.td, s.dtorOn with
+     | .fcb, .idle, none =>
+       let s := touch s
+       { s with threads := setT s.threads i { t with pc := .fdtor }, activeFlushes := s.activeFlushes - 1,
+                td := notifyTd s.td, dtorOn := some i }
+     | _, _, _ => s)
   | none => s
 
 /-! ## the I/O thread and the engine -/
@@ -244,12 +319,12 @@ def doIoConnDone (s : State) (i : Nat) : State :=
     match s.threads[i]? with
     | some t =>
       (match t.kind, t.pc with
-       | .conn, .parked _ => { s with threads := setT s.threads i { t with completed := true, pc := .parked true } }
+       | .conn, .parked _ => { touch s with threads := setT s.threads i { t with completed := true, pc := .parked true } }
        | _, _ => s)
     | none => s
   else s
 
-/-- mirrors tcp_engine.hpp::TcpEngine::shutdownDrain + the thread epilogue of `start()` — after `_running` was cleared -/
+/-- mirrors tcp_engine.hpp / udp_engine.hpp::shutdownDrain + the thread epilogue of `start()` — after `_running` was cleared -/
 def doIoDrain (s : State) (sid : Option Nat) : State :=
   if ioFree s && !s.running then
     match sid with
@@ -264,14 +339,26 @@ def doIoDrain (s : State) (sid : Option Nat) : State :=
        | _ :: _ => s)
   else s
 
+/-- mirrors transport_impl.hpp::Transport::connectSync / receiveSync / sendSync / setReadMode — the first statement, executed
+by a callback on the I/O thread: the call throws; were the guard to carry an `isRunning()` conjunct, a call made while the
+shutdown drain runs (`_running == false`) would enter the blocking operation on the only thread that can complete it -/
+def doIoSyncCall (s : State) (op : SyncOp) : State :=
+  if ioFree s then
+    if guardIdentityOnly op || s.running then { touch s with log := s.log ++ [.refused op] }
+    else { s with ioSelfBlock := true }
+  else s
+
 /-- mirrors transport_impl.hpp::Transport::stop -/
 def doStopCall (s : State) : State :=
   if s.stopJoining then s
-  else if s.running then { s with running := false, stopJoining := true }
-  else { s with log := s.log ++ [.stopReturned] }
+  else
+    let s := touch s
+    if s.running then { s with running := false, stopJoining := true }
+    else { s with log := s.log ++ [.stopReturned] }
 
+/-- the join returns into `TcpEngine::stop` / `Transport::stop`: members of the engine are touched once more -/
 def doStopJoin (s : State) : State :=
-  if s.stopJoining && !s.ioAlive then { s with stopJoining := false, log := s.log ++ [.stopReturned] } else s
+  if s.stopJoining && !s.ioAlive then { touch s with stopJoining := false, log := s.log ++ [.stopReturned] } else s
 
 /-! ## teardown -/
 
@@ -280,11 +367,11 @@ def doTdBegin (s : State) : State :=
   match s.td with
   | .idle =>
     if s.running then
-      -- NORMAL: setTeardownFence (fence + wake connectSync waiters only — the same section as teardownWaitOut(false)'s entry)
-      { waitOutEntry s false with td := .fenced }
+      -- NORMAL: setTeardownFence (fence + wake connectSync waiters only)
+      { waitOutEntry s false with td := .fenced, path := .normal }
     else
-      -- ALREADY-STOPPED: teardownWaitOut(true)
-      let s := waitOutEntry s true
+      -- ALREADY-STOPPED: teardownWaitOut(<as written>)
+      let s := { waitOutEntry s nrStopped with path := .stopped }
       if gate s then { s with td := .waited } else { s with td := .waiting false }
   | _ => s
 
@@ -294,7 +381,7 @@ def doTdStop (s : State) : State :=
   | .fenced =>
     if s.running then { s with running := false, td := .joining }
     else
-      let s := waitOutEntry s false
+      let s := waitOutEntry s nrNormal
       if gate s then { s with td := .waited } else { s with td := .waiting false }
   | _ => s
 
@@ -303,7 +390,7 @@ def doTdJoined (s : State) : State :=
   | .joining =>
     if s.ioAlive then s
     else
-      let s := waitOutEntry s false
+      let s := waitOutEntry s nrNormal
       if gate s then { s with td := .waited } else { s with td := .waiting false }
   | _ => s
 
@@ -314,20 +401,31 @@ def doTdWake (s : State) : State :=
     if gate s then { s with td := .ioReleased, running := false } else { s with td := .ioWaiting false }
   | _ => s
 
+/-- `~Impl` on the destroying (non-I/O, non-flusher) thread -/
 def doTdDestroy (s : State) : State :=
-  match s.td with
-  | .waited => { s with td := .destroyed, implAlive := false, log := s.log ++ [.destroyed] }
-  | _ => s
+  match s.td, s.dtorOn with
+  | .waited, none => { s with td := .destroyed, implAlive := false, log := s.log ++ [.destroyed] }
+  | _, _ => s
 
-/-- mirrors transport_impl.hpp::Transport::~Transport — the I/O-thread branch -/
+/-- mirrors transport_impl.hpp::Transport::~Transport (flusher branch): `outer->orphaned = true; _impl.release(); return` -/
+def doTdOrphan (s : State) : State :=
+  match s.td, s.dtorOn with
+  | .waited, some _ => { s with td := .flushOwned }
+  | _, _ => s
+
+/-- mirrors transport_impl.hpp::Transport::~Transport — the I/O-thread branch; with an `isRunning()` conjunct in its test, a
+destructor entered on the I/O thread while the shutdown drain runs would fall through to `performTeardown` and run `~Impl`
+under the engine's own dispatch -/
 def doIoSelfDestruct (s : State) : State :=
-  match s.td with
-  | .idle =>
-    if s.ioAlive then
-      let s := waitOutEntry s true
-      if gate s then { s with td := .ioReleased, running := false } else { s with td := .ioWaiting false }
+  match s.td, s.dtorOn with
+  | .idle, none =>
+    if ioFree s then
+      if !ioBranchIdentityOnly && !s.running then { s with uaf := true }
+      else
+        let s := { waitOutEntry s nrIo with path := .io }
+        if gate s then { s with td := .ioReleased, running := false } else { s with td := .ioWaiting false }
     else s
-  | _ => s
+  | _, _ => s
 
 def step (s : State) : Step → State
   | .enter i => doEnter s i
@@ -338,6 +436,7 @@ def step (s : State) : Step → State
   | .ioCloseSess sid => doIoCloseSess s sid
   | .ioConnDone i => doIoConnDone s i
   | .ioDrain sid => doIoDrain s sid
+  | .ioSyncCall op => doIoSyncCall s op
   | .stopCall => doStopCall s
   | .stopJoin => doStopJoin s
   | .tdBegin => doTdBegin s
@@ -345,7 +444,9 @@ def step (s : State) : Step → State
   | .tdJoined => doTdJoined s
   | .tdWake => doTdWake s
   | .tdDestroy => doTdDestroy s
+  | .tdOrphan => doTdOrphan s
   | .ioSelfDestruct => doIoSelfDestruct s
+  | .flushSelfDestruct i => doFlushSelfDestruct s i
 
 def run (s : State) : List Step → State
   | [] => s
@@ -354,13 +455,16 @@ def run (s : State) : List Step → State
 /-- the wait of the destructor has completed (or the object is gone) -/
 def waitCompleted (td : Td) : Bool :=
   match td with
-  | .waited | .ioReleased | .destroyed => true
+  | .waited | .ioReleased | .flushOwned | .destroyed => true
   | _ => false
 
-/-- environment contract: no call BEGINS once the destructor's wait has completed -/
+/-- environment contract (see the header) -/
 def ok (s : State) : Step → Bool
   | .enter _ => !waitCompleted s.td
-  | .stopCall => s.td == .idle          -- engine lifecycle contract: stop() is not concurrent with destruction
+  | .stopCall => s.td == .idle && s.dtorOn == none
+  | .tdBegin => !s.stopJoining
+  | .ioSelfDestruct => !s.stopJoining
+  | .flushSelfDestruct _ => !s.stopJoining
   | _ => true
 
 def Disciplined : State → List Step → Prop
